@@ -181,6 +181,12 @@ package dsl
 //@ func dsl.(VisitorWithContext[any]).VisitChildren[any]
 //@   property C10
 //@   iteration 10: a_subscript_argument_is_visited_as_a_node: typeof(node) == *SubscriptExpression ==> typeof(lastArg("dsl.(VisitorWithContext[any]).Visit[any]", 1)) == *SubscriptArgument
+// C08: the Python generator registers the record dtypes of imported namespaces in the order of this list, and a
+// registration looks up the dtypes of the records it uses at once: a namespace is listed after the namespaces it
+// references (the walk descends first and lists the namespace when it comes back).
+//@ func (*Namespace).GetAllChildReferences@recurse
+//@   property C08
+//@   iteration 0: a_namespace_is_listed_after_the_namespaces_it_references: !old(checked[ref.Name]) ==> len(children) > 0 && children[len(children) - 1] == ref
 //@ func parseError
 //@   requires node != nil
 // Diagnostics are located: whoever reports an error or a warning hands over the node it is about (both constructors
@@ -519,6 +525,16 @@ package dsl
 //@ spec func numericKind(t Type) bool = GetKindIfPrimitive(t).ok && (GetKindIfPrimitive(t).primitiveKind == PrimitiveKindInteger || GetKindIfPrimitive(t).primitiveKind == PrimitiveKindFloatingPoint || GetKindIfPrimitive(t).primitiveKind == PrimitiveKindComplexFloatingPoint)
 //@ spec func negated(r Node) Expression = r.(*UnaryExpression).Expression
 //@ func resolveComputedFields$1
+//@   property C09,C08
+// C10 (terminates promptly): the computed fields that were already resolved are remembered in the scope
+// (RewrittenFields). A computed field reached through a field of another record is resolved in a scope for that
+// record that shares this memo - otherwise every access resolves the field again, and a chain of nested records whose
+// computed field reads `inner.total + inner.total` doubles the work per level. The memo of a scope is chosen when the
+// scope is built and never replaced (checked: no statement stores to the field of an existing scope).
+//@ immutable dsl.ComputedFieldScope.RewrittenFields
+//@ observe-args dsl.(*RewriterWithContext[*ComputedFieldScope]).Rewrite[*github.com/microsoft/yardl/tooling/pkg/dsl.ComputedFieldScope]
+//@   property C10
+//@   ensures a_computed_field_of_another_record_is_resolved_with_the_same_memo: typeof(node) == *MemberAccessExpression && context != nil && called("dsl.(*RewriterWithContext[*ComputedFieldScope]).Rewrite[*github.com/microsoft/yardl/tooling/pkg/dsl.ComputedFieldScope]") && typeof(lastArg("dsl.(*RewriterWithContext[*ComputedFieldScope]).Rewrite[*github.com/microsoft/yardl/tooling/pkg/dsl.ComputedFieldScope]", 1)) == *ComputedField ==> lastArg("dsl.(*RewriterWithContext[*ComputedFieldScope]).Rewrite[*github.com/microsoft/yardl/tooling/pkg/dsl.ComputedFieldScope]", 2) != nil && lastArg("dsl.(*RewriterWithContext[*ComputedFieldScope]).Rewrite[*github.com/microsoft/yardl/tooling/pkg/dsl.ComputedFieldScope]", 2).RewrittenFields == context.RewrittenFields
 //@   property C09,C08
 //@   ensures negation_is_type_checked: typeof(node) == *UnaryExpression && typeof(result) == *UnaryExpression && result.(*UnaryExpression) != nil && negated(result) != nil && negated(result).GetResolvedType() != nil ==> called(GetKindIfPrimitive)
 //@   ensures negation_needs_a_numeric_operand: typeof(node) == *UnaryExpression && called(GetKindIfPrimitive) && !(lastResult(GetKindIfPrimitive).ok && (lastResult(GetKindIfPrimitive).primitiveKind == PrimitiveKindInteger || lastResult(GetKindIfPrimitive).primitiveKind == PrimitiveKindFloatingPoint || lastResult(GetKindIfPrimitive).primitiveKind == PrimitiveKindComplexFloatingPoint)) ==> called("validation.(*ErrorSink).Add")
